@@ -99,6 +99,7 @@ type c06Art struct {
 	Attr   [6]int `json:"attr"`
 	Dev    string `json:"dev,omitempty"`
 	Seq    []string `json:"seq,omitempty"` // request part: k0,v0,k1,v1,... quoted
+	Reuse     *c06Reuse `json:"reuse,omitempty"` // request part: earlier life of the reading object
 	Ops       []int `json:"ops,omitempty"` // reuse part: indices into c06Ops()
 	Mask      int   `json:"mask,omitempty"`
 	Start     int   `json:"start,omitempty"`
@@ -539,7 +540,108 @@ func c06RunHistory(r *vrt.R, ops []c06Op, seq []int, mask, start int, viaString 
 
 type c06KV struct{ k, v string }
 
-func c06CheckReq(r *vrt.R, seq []c06KV, st *c06ReqStats) {
+// c06Reuse describes the earlier life of the RequestHeader that reads the serialised cookies (nil: a fresh header).
+type c06Reuse struct {
+	Mode   int  // index into c06ReuseModes
+	A      int  // index into c06ReuseA: the header read before
+	Access bool // the cookies of A were enumerated (cookies are collected lazily) before the object was reused
+}
+
+var (
+	c06ReuseModes = []string{"RequestHeader: Read A, Reset, Read B", "RequestHeader: Read A, Read B", "AcquireRequest: Header.Read A, ReleaseRequest, AcquireRequest, Header.Read B", "Request: Read A, Read B"}
+	c06ReuseA     = []string{"admin=1", "admin=1; user=2", "admin=1; user=2; sess=3"}
+)
+
+func c06ReqBytes(cookie string) []byte {
+	return []byte("GET / HTTP/1.1\r\nHost: example.com\r\nCookie: " + cookie + "\r\n\r\n")
+}
+
+// c06ReadCookies lets fasthttp read wire, into a fresh header or into one with an earlier life.
+func c06ReadCookies(wire []byte, ru *c06Reuse) (seen, seen2 []c06KV, err error) {
+	br := c06RPool.Get().(*bufio.Reader)
+	defer func() { br.Reset(nil); c06RPool.Put(br) }()
+	collect := func(h *RequestHeader) {
+		h.VisitAllCookie(func(k, v []byte) { seen = append(seen, c06KV{string(k), string(v)}) })
+		for k, v := range h.Cookies() {
+			seen2 = append(seen2, c06KV{string(k), string(v)})
+		}
+	}
+	touch := func(h *RequestHeader) {
+		if ru.Access {
+			h.VisitAllCookie(func(k, v []byte) {})
+		}
+	}
+	if ru == nil {
+		var h RequestHeader
+		br.Reset(bytes.NewReader(wire))
+		if err = h.Read(br); err == nil {
+			collect(&h)
+		}
+		return
+	}
+	a := c06ReqBytes(c06ReuseA[ru.A])
+	switch ru.Mode {
+	case 0, 1:
+		var h RequestHeader
+		br.Reset(bytes.NewReader(a))
+		if e := h.Read(br); e != nil {
+			panic("C06: header A does not parse: " + e.Error())
+		}
+		touch(&h)
+		if ru.Mode == 0 {
+			h.Reset()
+		}
+		br.Reset(bytes.NewReader(wire))
+		if err = h.Read(br); err == nil {
+			collect(&h)
+		}
+	case 2:
+		req := AcquireRequest()
+		br.Reset(bytes.NewReader(a))
+		if e := req.Header.Read(br); e != nil {
+			panic("C06: header A does not parse: " + e.Error())
+		}
+		touch(&req.Header)
+		ReleaseRequest(req)
+		req = AcquireRequest()
+		br.Reset(bytes.NewReader(wire))
+		if err = req.Header.Read(br); err == nil {
+			collect(&req.Header)
+		}
+		ReleaseRequest(req)
+	default:
+		var req Request
+		br.Reset(bytes.NewReader(a))
+		if e := req.Read(br); e != nil {
+			panic("C06: request A does not parse: " + e.Error())
+		}
+		touch(&req.Header)
+		br.Reset(bytes.NewReader(wire))
+		if err = req.Read(br); err == nil {
+			collect(&req.Header)
+		}
+	}
+	return
+}
+
+// c06WireNames tokenises the Cookie line as the grammar does (pairs separated by ';', name before the first '='):
+// the names a reader may legitimately report. A pair without '=' has no name.
+func c06WireNames(wire []byte) map[string]bool {
+	out := map[string]bool{"": true}
+	_, rest, ok := bytes.Cut(wire, []byte("\r\nCookie: "))
+	if !ok {
+		return out
+	}
+	line, _, _ := bytes.Cut(rest, []byte("\r\n"))
+	for _, seg := range bytes.Split(line, []byte(";")) {
+		if k, _, ok := bytes.Cut(seg, []byte("=")); ok {
+			out[string(bytes.Trim(k, " "))] = true
+		}
+	}
+	return out
+}
+
+func c06CheckReq(r *vrt.R, seq []c06KV, st *c06ReqStats, ru *c06Reuse) {
 	st.cases++
 	var h RequestHeader
 	h.SetHost("example.com")
@@ -557,7 +659,7 @@ func c06CheckReq(r *vrt.R, seq []c06KV, st *c06ReqStats) {
 	}
 	wire := append([]byte(nil), h.Header()...)
 	art := func() c06Art {
-		a := c06Art{Part: "request"}
+		a := c06Art{Part: "request", Reuse: ru}
 		for _, kv := range seq {
 			a.Seq = append(a.Seq, strconv.QuoteToASCII(kv.k), strconv.QuoteToASCII(kv.v))
 		}
@@ -581,7 +683,15 @@ func c06CheckReq(r *vrt.R, seq []c06KV, st *c06ReqStats) {
 		for _, kv := range seq {
 			fmt.Fprintf(&b, "SetCookie(%s,%s) ", strconv.QuoteToASCII(kv.k), strconv.QuoteToASCII(kv.v))
 		}
-		return b.String() + "serialises to " + strconv.QuoteToASCII(string(wire))
+		how := ""
+		if ru != nil {
+			how = fmt.Sprintf(" and is read by a reused object (%s; A = \"Cookie: %s\", cookies of A enumerated: %v)", c06ReuseModes[ru.Mode], c06ReuseA[ru.A], ru.Access)
+		}
+		return b.String() + "serialises to " + strconv.QuoteToASCII(string(wire)) + how
+	}
+	tag := "fresh"
+	if ru != nil {
+		tag = "reused"
 	}
 	if n := bytes.Count(wire, []byte("\r\n")); n != 3 && n != 4 { // request line, Host, [Cookie], blank line
 		r.Violation("request-cookie-breaks-header-lines", desc(), art())
@@ -619,12 +729,7 @@ func c06CheckReq(r *vrt.R, seq []c06KV, st *c06ReqStats) {
 			r.Violation("request-cookie-octet-roundtrip/peer="+peer, fmt.Sprintf("%s; %s sees %q", desc(), peer, seen), art())
 		}
 	}
-	br := c06RPool.Get().(*bufio.Reader)
-	br.Reset(bytes.NewReader(wire))
-	var h2 RequestHeader
-	err := h2.Read(br)
-	br.Reset(nil)
-	c06RPool.Put(br)
+	seen, seen2, err := c06ReadCookies(wire, ru)
 	if err != nil {
 		st.fastRejected++
 		if clean {
@@ -632,11 +737,6 @@ func c06CheckReq(r *vrt.R, seq []c06KV, st *c06ReqStats) {
 		}
 	} else {
 		st.fastRead++
-		var seen, seen2 []c06KV
-		h2.VisitAllCookie(func(k, v []byte) { seen = append(seen, c06KV{string(k), string(v)}) })
-		for k, v := range h2.Cookies() {
-			seen2 = append(seen2, c06KV{string(k), string(v)})
-		}
 		if fmt.Sprint(seen) != fmt.Sprint(seen2) {
 			r.Violation("request-cookie-visitall-vs-cookies-differ", fmt.Sprintf("%s: VisitAllCookie %q, Cookies() %q", desc(), seen, seen2), art())
 		}
@@ -644,8 +744,20 @@ func c06CheckReq(r *vrt.R, seq []c06KV, st *c06ReqStats) {
 			st.extra++
 		}
 		judge("fasthttp", seen)
+		names := c06WireNames(wire)
+		for _, kv := range seen {
+			if !names[kv.k] {
+				r.Violation("request-cookie-name-not-on-wire/"+tag, fmt.Sprintf("%s; fasthttp reports the cookie %q=%q, a name that is no pair name of the Cookie line", desc(), kv.k, kv.v), art())
+				break
+			}
+		}
+		if ru != nil {
+			if fresh, _, ferr := c06ReadCookies(wire, nil); ferr == nil && fmt.Sprint(fresh) != fmt.Sprint(seen) {
+				r.Violation("request-cookie-reused-reader-differs-from-fresh", fmt.Sprintf("%s; reused object sees %q, a fresh RequestHeader sees %q", desc(), seen, fresh), art())
+			}
+		}
 	}
-	br = c06RPool.Get().(*bufio.Reader)
+	br := c06RPool.Get().(*bufio.Reader)
 	br.Reset(bytes.NewReader(wire))
 	req, err := http.ReadRequest(br)
 	br.Reset(nil)
@@ -658,15 +770,15 @@ func c06CheckReq(r *vrt.R, seq []c06KV, st *c06ReqStats) {
 		return
 	}
 	st.netRead++
-	var seen []c06KV
+	var nseen []c06KV
 	for _, c := range req.Cookies() {
-		seen = append(seen, c06KV{c.Name, c.Value})
+		nseen = append(nseen, c06KV{c.Name, c.Value})
 	}
-	judge("nethttp", seen)
+	judge("nethttp", nseen)
 }
 
 type c06ReqStats struct {
-	cases, clean, fastRead, fastRejected, netRead, netRejected, extra int64
+	cases, clean, fastRead, fastRejected, netRead, netRejected, extra, reused int64
 }
 
 func (s *c06ReqStats) add(o *c06ReqStats) {
@@ -677,6 +789,7 @@ func (s *c06ReqStats) add(o *c06ReqStats) {
 	s.netRead += o.netRead
 	s.netRejected += o.netRejected
 	s.extra += o.extra
+	s.reused += o.reused
 }
 
 // ------------------------------------------------------------------------------------------------ driver
@@ -708,7 +821,7 @@ func TestVerif_C06(t *testing.T) {
 				seq = append(seq, c06KV{uq(a.Seq[i]), uq(a.Seq[i+1])})
 			}
 			var st c06ReqStats
-			c06CheckReq(r, seq, &st)
+			c06CheckReq(r, seq, &st, a.Reuse)
 		} else {
 			var st c06Stats
 			c06CheckResp(r, c06Case{Key: uq(a.Key), Value: uq(a.Value), Domain: uq(a.Domain), Path: uq(a.Path), Attr: a.Attr, Dev: a.Dev}, true, &st)
@@ -738,7 +851,9 @@ func TestVerif_C06(t *testing.T) {
 		"(setters incl. SetExpire A/B/unlimited/delete, SetMaxAge, ParseBytes/Parse of 4 other cookies, CopyTo from parsed or already-serialised cookies, Reset) with every choice of intermediate serialisations (AppendBytes or String); "+
 		"after each serialisation the same oracle against the object's getters at that moment. "+
 		"(b) request cookies: SetCookie sequences: 1 call with key <=3, value <=%d adversarial symbols; 2 calls (key<=1,value<=%d then key<=1,value<=2); 3 calls (<=1,<=1); and <=3 calls over cookie-octet keys/values; "+
-		"RequestHeader.Write->Read->VisitAllCookie/Cookies() and net/http Request.Cookies() never see more cookies than distinct keys set, octet inputs are seen exactly. "+
+		"RequestHeader.Write->Read->VisitAllCookie/Cookies() and net/http Request.Cookies() never see more cookies than distinct keys set, every name fasthttp reports is a pair name of the Cookie line (or empty), octet inputs are seen exactly; "+
+		"the short sequences (1 call key<=1,value<=2/3; 2 calls <=1; octet pairs with a nameless pair before/after) are also read by a REUSED object that read 1-3 named cookies before "+
+		"(RequestHeader Read/Reset/Read, Read/Read, AcquireRequest/ReleaseRequest, Request.Read twice; earlier cookies enumerated or not) and must be seen as by a fresh one. "+
 		"Non-trivial: (a) a setter had to neutralise its argument or the case is a cookie-octet round trip; (b) an argument contains a delimiter (; = SP \" , \\ CR LF) or the case is an octet round trip.",
 		advLen, len(c06Words)*3, len(allAttrs), len(pairAttrs), len(oneAttr), vrt.Pick(r, 1, 3), vrt.Pick(r, 2, 4), vrt.Pick(r, 3, 4), len(c06Ops()), advLen, vrt.Pick(r, 2, 3)))
 	r.Assume("RFC 6265: cookie-name is a token, so '=' and the other separators (cookie-octets, but not token characters) and the empty name are outside the byte-exact round-trip claim for keys",
@@ -904,7 +1019,7 @@ func TestVerif_C06(t *testing.T) {
 		k := k
 		rjobs = append(rjobs, func(st *c06ReqStats) {
 			for _, v := range advN {
-				c06CheckReq(r, []c06KV{{k, v}}, st)
+				c06CheckReq(r, []c06KV{{k, v}}, st, nil)
 			}
 		})
 	}
@@ -914,7 +1029,7 @@ func TestVerif_C06(t *testing.T) {
 			rjobs = append(rjobs, func(st *c06ReqStats) {
 				for _, k2 := range adv1 {
 					for _, v2 := range adv2 {
-						c06CheckReq(r, []c06KV{{k1, v1}, {k2, v2}}, st)
+						c06CheckReq(r, []c06KV{{k1, v1}, {k2, v2}}, st, nil)
 					}
 				}
 			})
@@ -928,7 +1043,7 @@ func TestVerif_C06(t *testing.T) {
 					for _, v2 := range adv1 {
 						for _, k3 := range adv1 {
 							for _, v3 := range adv1 {
-								c06CheckReq(r, []c06KV{{k1, v1}, {k2, v2}, {k3, v3}}, st)
+								c06CheckReq(r, []c06KV{{k1, v1}, {k2, v2}, {k3, v3}}, st, nil)
 							}
 						}
 					}
@@ -945,20 +1060,53 @@ func TestVerif_C06(t *testing.T) {
 		}
 	}
 	rjobs = append(rjobs, func(st *c06ReqStats) {
-		c06CheckReq(r, nil, st)
+		c06CheckReq(r, nil, st, nil)
 		for _, a := range opairs {
-			c06CheckReq(r, []c06KV{a}, st)
+			c06CheckReq(r, []c06KV{a}, st, nil)
 		}
 	})
 	for _, a := range opairs {
 		a := a
 		rjobs = append(rjobs, func(st *c06ReqStats) {
 			for _, b := range opairs {
-				c06CheckReq(r, []c06KV{a, b}, st)
+				c06CheckReq(r, []c06KV{a, b}, st, nil)
 				for _, c := range opairs {
-					c06CheckReq(r, []c06KV{a, b, c}, st)
+					c06CheckReq(r, []c06KV{a, b, c}, st, nil)
 				}
 			}
+		})
+	}
+	// reused readers: the same sequences (short ones) read by an object that read other cookies before
+	var reuses []c06Reuse
+	for m := range c06ReuseModes {
+		for a := range c06ReuseA {
+			reuses = append(reuses, c06Reuse{m, a, false}, c06Reuse{m, a, true})
+		}
+	}
+	advR := c06Strings(c06Adv, vrt.Pick(r, 2, 3), false)
+	for i := range reuses {
+		ru := &reuses[i]
+		rjobs = append(rjobs, func(st *c06ReqStats) {
+			for _, k := range adv1 {
+				for _, v := range advR {
+					c06CheckReq(r, []c06KV{{k, v}}, st, ru)
+				}
+			}
+			for _, k1 := range adv1 {
+				for _, v1 := range adv1 {
+					for _, k2 := range adv1 {
+						for _, v2 := range adv1 {
+							c06CheckReq(r, []c06KV{{k1, v1}, {k2, v2}}, st, ru)
+						}
+					}
+				}
+			}
+			for _, a := range opairs {
+				c06CheckReq(r, []c06KV{a}, st, ru)
+				c06CheckReq(r, []c06KV{a, {"", "xyz"}}, st, ru)
+				c06CheckReq(r, []c06KV{{"", "xyz"}, a}, st, ru)
+			}
+			st.reused = st.cases
 		})
 	}
 	var rtot c06ReqStats
@@ -975,6 +1123,7 @@ func TestVerif_C06(t *testing.T) {
 		mu.Unlock()
 	})
 	r.Add("req_cases", rtot.cases)
+	r.Add("req_cases_read_by_reused_object", rtot.reused)
 	r.Add("req_cookie_octet_sequences", rtot.clean)
 	r.Add("req_fasthttp_read", rtot.fastRead)
 	r.Add("req_fasthttp_rejected", rtot.fastRejected)
